@@ -224,6 +224,9 @@ def worker(spec):
                 if i % spec['nshards'] == spec['shard']:
                     progs.append(p)
         progs += list(progen.random_programs(rng, spec['random_n'], size=spec.get('size', 12)))
+        fam = list(progen.binding_scenario_programs()) + list(progen.raise_handler_programs(info=info))
+        step = spec.get('family_step', 1)
+        progs += [p for i, p in enumerate(fam) if i % spec['nshards'] == spec['shard'] and (i // spec['nshards']) % step == spec['seed'] % step]
         # interleave the families so that a time budget cuts all of them evenly
         rng.shuffle(progs)
     res = {'programs': 0, 'cases': 0, 'nontrivial': 0, 'failures': [], 'features': {}, 'outcomes': {}, 'configs': {},
